@@ -81,20 +81,28 @@ def _guard(f):
 
 
 @_guard
-def eq(a, b, rtol=RTOL, atol=ATOL):
+def eq(a, b, rtol=RTOL, atol=ATOL, expand=False):
+    """expand=True: symbols introduced with ctx.define() are replaced by their definitions before comparing"""
     if is_sym(a) or is_sym(b):
         a, b = S.lift_strict(a), S.lift_strict(b)
         if isinstance(a, SC) or isinstance(b, SC):
             a, b = S.as_sc(a), S.as_sc(b)
-            return And(_eq_sr(a.re, b.re), _eq_sr(a.im, b.im))
-        return _eq_sr(a, b)
+            return And(_eq_sr(a.re, b.re, expand), _eq_sr(a.im, b.im, expand))
+        return _eq_sr(a, b, expand)
     return Verdict(close(a, b, rtol, atol), f"{a!r} != {b!r}")
 
 
-def _eq_sr(a, b):
+def _eq_sr(a, b, expand=False):
     r = a == b
     if r is True and not (a.is_const() and b.is_const()):
         return S.structural_eq(a, b)
+    if expand and isinstance(r, SB):
+        # symbols introduced with define(): compare after substituting their definitions
+        ea, eb = S.expand_defs(a), S.expand_defs(b)
+        if ea is not a or eb is not b:
+            r2 = ea == eb
+            if r2 is True:
+                return S.structural_eq(ea, eb)
     return r
 
 
